@@ -46,7 +46,7 @@ def parseApp (s : String) : Option App :=
     let l ← natList l
     let m ← parseMods m
     if n ≤ 3 ∧ t < 1000 ∧ l.all (· < 11) ∧ l.length ≤ 4 ∧ m.length ≤ 4 ∧
-        (if n = 3 then f = 0 ∨ f = 2 ∨ (f = 6 ∧ l ≠ []) else f ≤ 5 ∧ f ≠ 1) ∧
+        (if n = 3 then f = 0 ∨ f = 2 ∨ ((f = 6 ∨ f = 7) ∧ l ≠ []) else f ≤ 5 ∧ f ≠ 1) ∧
         -- keys ≥ 4 are real reverse_proxy handlers: only in the HTTP app, never "unknown"
         m.all (fun g => g.key < 4 ∨ (n = 3 ∧ g.fault ≠ 1)) ∧
         -- the stuck stream is opened through a TCP listener of the app; one such handler per app
